@@ -23,6 +23,7 @@ type c24Req struct {
 	AE     string `json:"accept_encoding"`
 	IMS    string `json:"if_modified_since"` // "", before, at, after, garbage
 	GapMs  int    `json:"gap_ms"`
+	Rewrite bool  `json:"file_rewritten_before,omitempty"` // the file gets new content and a newer mtime, then the caches are left to expire
 }
 
 type c24Plan struct {
@@ -99,6 +100,7 @@ func scenC24(e *Env) func() {
 			r.Range = genRange(e, l)
 			r.AE = "gzip"
 		}
+		r.Rewrite = e.Chance(12) && r.File != "empty.txt"
 		p.Reqs = append(p.Reqs, r)
 	}
 	e.Sample = p
@@ -223,6 +225,12 @@ func c24Run(e *Env, p *c24Plan) {
 	var mu sync.Mutex
 	one := func(i int, r c24Req) {
 		time.Sleep(time.Duration(r.GapMs) * time.Millisecond)
+		if r.Rewrite && !p.Concurrent && p.Mode != "fsfs" {
+			// new content, newer mtime; then every cache entry (and compressed copy decision) is left to expire
+			fx.rewrite(r.File, fileBytes(r.File+"-v2", len(fx.files[r.File])+7))
+			e.Fault("file_rewritten")
+			time.Sleep(2*time.Duration(p.CacheMs)*time.Millisecond + 1500*time.Millisecond)
+		}
 		hdr := ""
 		if r.Range != "" {
 			hdr += "Range: " + r.Range + "\r\n"
@@ -232,11 +240,11 @@ func c24Run(e *Env, p *c24Plan) {
 		}
 		switch r.IMS {
 		case "before":
-			hdr += "If-Modified-Since: " + fx.mtime.Add(-time.Hour).UTC().Format(http.TimeFormat) + "\r\n"
+			hdr += "If-Modified-Since: " + fx.mtimeOf(r.File).Add(-time.Hour).UTC().Format(http.TimeFormat) + "\r\n"
 		case "at":
-			hdr += "If-Modified-Since: " + fx.mtime.UTC().Format(http.TimeFormat) + "\r\n"
+			hdr += "If-Modified-Since: " + fx.mtimeOf(r.File).UTC().Format(http.TimeFormat) + "\r\n"
 		case "after":
-			hdr += "If-Modified-Since: " + fx.mtime.Add(time.Hour).UTC().Format(http.TimeFormat) + "\r\n"
+			hdr += "If-Modified-Since: " + fx.mtimeOf(r.File).Add(time.Hour).UTC().Format(http.TimeFormat) + "\r\n"
 		case "garbage":
 			hdr += "If-Modified-Since: yesterday\r\n"
 		}
@@ -362,8 +370,8 @@ func c24Judge(e *Env, p *c24Plan, fx *fsFixture, i int, r c24Req, get, head *Res
 		e.Violation("content", "%s: body (encoding %q) does not decode to the file: err=%v, %d bytes vs %d (first difference at %d)", tag, enc, err, len(body), l, firstDiff(body, content))
 		return
 	}
-	if lm := get.Header.Get("Last-Modified"); lm != fx.mtime.UTC().Format(http.TimeFormat) {
-		e.Violation("last-modified", "%s: Last-Modified %q, file mtime %q", tag, lm, fx.mtime.UTC().Format(http.TimeFormat))
+	if lm := get.Header.Get("Last-Modified"); lm != fx.mtimeOf(r.File).UTC().Format(http.TimeFormat) {
+		e.Violation("last-modified", "%s: Last-Modified %q, file mtime %q", tag, lm, fx.mtimeOf(r.File).UTC().Format(http.TimeFormat))
 	}
 }
 
